@@ -464,3 +464,74 @@ def serialise(ev):
         return None  # value arithmetic (k-1, max+1): cannot be rank-abstracted; drivers do not generate these
     table = {v: i for i, v in enumerate(sorted(vals))}
     return _subst(ev, lambda x: table[x])
+
+
+# --------------------------------------------------------------------------------------------------
+# re-execution of a recorded event (bin/check <ID> --replay): rebuild the objects from the recorded pre-state,
+# run the same call on the current tree, record it again
+# --------------------------------------------------------------------------------------------------
+def _build(iindex, rep):
+    ents = {tuple(e["k"]): np.array(e["rows"], dtype=np.uint32) for e in rep["ents"]}
+    return iindex(ents, rep["common"], tuple(rep["shape"]))
+
+
+def _arr(a, shape):
+    return np.array(a, dtype=np.int64).reshape(tuple(shape))
+
+
+def reexecute(rec, ev):
+    """ev: a serialised event (plain ints). Returns True if the operation could be re-executed."""
+    ii = rec.iindex
+    op, a = ev["op"], ev["args"]
+    recv = _build(ii, ev["recv"]) if ev["recv"]["shape"] != [0] or ev["recv"]["ents"] or op not in ("from_array", "column_stack", "eq", "common_common") else None
+    others = [_build(ii, o) for o in ev.get("others", [])]
+    mp = lambda: {k: v for k, v in a["mapping"]} if a.get("hasmapping") else None  # noqa
+    if op == "from_array":
+        arr = _arr(a["a"], a["shape"])
+        counts = None
+        if a.get("hascounts"):
+            vals, cnt = np.unique(arr, return_counts=True)
+            counts = dict(zip(vals.tolist(), cnt.tolist()))
+        rec.from_array(arr, common=a["common"] if a["hascommon"] else None, mapping=mp(), counts=counts)
+    elif op == "to_array":
+        rec.to_array(recv, mapping=mp(), dtype=a["dtype"] or None)
+    elif op == "shift_common":
+        rec.shift_common(recv, a["v"] if a["hasv"] else None)
+    elif op == "append":
+        rec.append(recv, others[0])
+    elif op == "update":
+        rec.update(recv, {tuple(c["k"]): c["rows"] for c in a["cells"]})
+    elif op == "filtered":
+        rec.filtered(recv, a["mask"])
+    elif op == "sliced":
+        rec.sliced(recv, [None if o["t"] == "none" else o["i"] if o["t"] == "int" else o["l"] for o in a["orders"]])
+    elif op == "slices1d":
+        rec.slices1d(recv)
+    elif op == "reindexed":
+        rec.reindexed(recv, mp(), copy=a["copy"], shift=a["shift"], assume_unique=a["assume_unique"])
+    elif op == "collapsed":
+        rec.collapsed(recv, a["precedence"], mp())
+    elif op == "copy":
+        rec.copy(recv)
+    elif op == "column_stack":
+        rec.column_stack_op(others, new_common=a["newcommon"] if a["hasnewcommon"] else None, copy=a["copy"])
+    elif op == "set_update":
+        rec.set_update(recv, a["which"], [(tuple(o["k"]), None if o["none"] else o["rows"]) for o in a["other"]],
+                       from_index=others[0] if others else None)
+    elif op == "query":
+        q = a["q"]
+        kw = {}
+        if q in ("get", "get_noforce"):
+            kw["key"] = tuple(a["key"])
+        if q == "common_rowids" and a["hc"]:
+            kw["col"] = a["hc"][0]
+        rec.query(recv, q, **kw)
+    elif op == "eq":
+        rec.eq(others[0], others[1])
+    elif op == "common_common":
+        rec.common_common(others)
+    elif op == "set_if":
+        rec.set_if(recv, tuple(a["key"]), None if a["none"] else a["rows"], copy=a.get("copy", True))
+    else:
+        return False
+    return True
